@@ -185,6 +185,12 @@ def _structural():
                     dict(diff='dimension', kinds=[k], rational=r)]
     for k in ('curve', 'surface', 'volume'):
         out.append(dict(diff='rationality', kinds=[k], rational=None))
+        # the stored arrays coincide: (x, y, z) of a non-rational shape == (xw, yw, w) of a rational one
+        out.append(dict(diff='rationality_same_storage', kinds=[k], rational=None))
+    # a curve whose degree / knot vector / points are the leading entries of a surface's (volume's) arrays
+    for r in (False, True):
+        out += [dict(diff='kind_shared_prefix', kinds=['curve', 'surface'], rational=r),
+                dict(diff='kind_shared_prefix', kinds=['surface', 'volume'], rational=r)]
     return out
 
 
@@ -208,6 +214,25 @@ def eq_structural(ctx, diff, kinds, rational):
         a = _obj(ctx, d)
         dr = dict(d, rational=True, W=[ctx.lit(1)] * len(d['P']))        # same points, unit weights
         b = _obj(ctx, dr)
+    elif diff == 'rationality_same_storage':
+        d = _data(ctx, k0, True)
+        b = _obj(ctx, d)                                               # rational, stores (x*w, y*w, .., w)
+        stored = spec.weighted(d['P'], d['W'])
+        a = _obj(ctx, dict(d, rational=False, W=None, P=stored))        # non-rational in one more dimension, same numbers
+        ctx.check_true('same_storage.differs_in_rationality', a.rational != b.rational and a.pdimension == b.pdimension)
+    elif diff == 'kind_shared_prefix':
+        # b has one more parametric direction; everything a has is a prefix of what b stores
+        nd_a = nd[kinds[0]]
+        sizes_b = [3] + [2] * nd_a
+        deg_b = [2] + [1] * nd_a
+        db = _plain(ctx, kinds[1], rational, deg_b, sizes_b, BASE[kinds[1]]['dim'], tag='y')
+        total_a = 1
+        for s_ in sizes_b[:nd_a]:
+            total_a *= s_
+        da = dict(db, kind=kinds[0], deg=deg_b[:nd_a], kvs=db['kvs'][:nd_a], sizes=sizes_b[:nd_a],
+                  P=db['P'][:total_a], W=(db['W'][:total_a] if rational else None))
+        a, b = _obj(ctx, da), _obj(ctx, db)
+        ctx.check_true('shared_prefix.differs_in_kind', a.pdimension != b.pdimension and a.rational == b.rational)
     elif diff == 'degree':
         # same number of control points and the same points, one degree differs (2 vs 1 in the first direction)
         sizes = [3] + [2] * (nd[k0] - 1)
